@@ -228,6 +228,80 @@ def lookalike_case(ctx, drv):
         trees.rmtree(root)
 
 
+def dup_manifest_case(ctx, drv):
+    """a sub-Manifest referenced by more than one MANIFEST entry (twice in one Manifest, or by parent and grandparent), a
+    change below it, and an update of the whole tree, of the sub-Manifest's directory or of a strict sub-directory (where
+    the duplicates lie outside the de-duplication): every MANIFEST entry must be refreshed"""
+    rng = ctx.rng
+    root = common.scratch_dir('gv.c03d.')
+    try:
+        from harness.trees import entry_line, digests_of, compress
+        a = rng.choice(['a', 'cat', 'x y'])
+        b = rng.choice(['b', 'pkg'])
+        fmt = rng.choice(['', '', '.gz', '.xz'])
+        files = {f'{a}/{b}/f1': b'one', f'{a}/{b}/f2': b'two', f'{a}/g': b'gee', 'top': b'top'}
+        for pth, data in files.items():
+            os.makedirs(os.path.dirname(os.path.join(root, pth)) or root, exist_ok=True)
+            open(os.path.join(root, pth), 'wb').write(data)
+        hs = ['SHA1']
+
+        def fl(pth, relto):
+            return entry_line('DATA', os.path.relpath(pth, relto or '.'), len(files[pth]), digests_of(files[pth], hs))
+        deep = rng.random() < 0.5          # a Manifest in a/b as well
+        texts = {}
+        if deep:
+            texts[f'{a}/{b}/Manifest'] = ''.join(l + '\n' for l in [fl(f'{a}/{b}/f1', f'{a}/{b}'), fl(f'{a}/{b}/f2', f'{a}/{b}')])
+        alines = [fl(f'{a}/g', a)]
+        if deep:
+            raw = texts[f'{a}/{b}/Manifest'].encode()
+            alines.append(entry_line('MANIFEST', f'{b}/Manifest', len(raw), digests_of(raw, hs)))
+        else:
+            alines += [fl(f'{a}/{b}/f1', a), fl(f'{a}/{b}/f2', a)]
+        rng.shuffle(alines)
+        texts[f'{a}/Manifest{fmt}'] = ''.join(l + '\n' for l in alines)
+        araw = compress(fmt, texts[f'{a}/Manifest{fmt}'].encode())
+        me = entry_line('MANIFEST', f'{a}/Manifest{fmt}', len(araw), digests_of(araw, hs))
+        me2 = entry_line('MANIFEST', f'{a}/Manifest{fmt}', len(araw), digests_of(araw, rng.choice([hs, ['MD5'], ['SHA1', 'SHA256']])))
+        tl = [fl('top', ''), me, me2] + ([me] if rng.random() < 0.2 else [])
+        rng.shuffle(tl)
+        texts['Manifest'] = ''.join(l + '\n' for l in tl)
+        for mp, t in texts.items():
+            suffix = os.path.splitext(mp)[1] if os.path.splitext(mp)[1] in trees.SUFFIXES else ''
+            open(os.path.join(root, mp), 'wb').write(compress(suffix, t.encode()))
+        # the change
+        k = rng.choice(['change', 'add', 'delete'])
+        if k == 'change':
+            open(os.path.join(root, a, b, 'f1'), 'ab').write(b'+changed')
+        elif k == 'add':
+            open(os.path.join(root, a, b, 'new'), 'wb').write(b'new')
+        else:
+            os.unlink(os.path.join(root, a, b, 'f2'))
+        path = rng.choice(['', a, f'{a}/{b}', f'{a}/{b}'])
+        o = {'hashes': rng.choice([['SHA1'], ['SHA1', 'SHA256']]), 'profile': 'default'}
+        if rng.random() < 0.3:
+            o['sort'] = True
+        world = trees.world_of(root, set(o['hashes']) | {'SHA1', 'MD5', 'SHA256'})
+        before = updimpl.snapshot(root)
+        impl, eff = updimpl.run_update(root, 'Manifest', path, o)
+        after = updimpl.snapshot(root)
+        model, req = model_update(drv, root, 'Manifest', path, o, eff, world)
+        scen = {'op': 'update', 'request': req, 'prior': ['manifest-entry-twice'], 'round': 0, 'options': o, 'path': path}
+        ctx.count('stream:manifest-entry-twice')
+        ctx.case(json.dumps(req, sort_keys=True)[:100000], True, {'path': path, 'change': k, 'deep': deep, 'fmt': fmt, 'impl': impl})
+        if model.get('err') != 'abstain':
+            compare_with_disk(ctx, scen, root, before, after, model, impl)
+        if 'ok' in impl:
+            problems, in_use = updimpl.exact_check(root, impl['top'], path, eff['hashes'])
+            v = treeimpl.verify_dir(root, impl['top'], '')
+            if problems or v.get('ret') is not True:
+                pp = sorted(set(p.split(':', 1)[1].split(':')[0].split(' in ')[0] for p in problems))
+                ctx.fail('not-exact-after-update', dict(scen, problem_paths=pp), '; '.join(problems[:5]) + ' ' + json.dumps(v)[:160])
+        elif treeimpl.is_internal(impl):
+            ctx.fail('internal-error', scen, impl['err'])
+    finally:
+        trees.rmtree(root)
+
+
 def run(ctx):
     ctx.rule = ('prior states: consistent layouts (nesting, several Manifests per directory, every compression, duplicates of 8 kinds '
                 'in one or several Manifests, IGNOREs, all entry types, 0-3 hashes) perturbed by edits, unregistered / garbage / deleted '
@@ -243,6 +317,8 @@ def run(ctx):
             one_case(ctx, drv)
         for i in range(60 if ctx.tier == 'quick' else 1500):
             lookalike_case(ctx, drv)
+        for i in range(80 if ctx.tier == 'quick' else 2000):
+            dup_manifest_case(ctx, drv)
     finally:
         drv.close()
 
